@@ -393,3 +393,135 @@ Proof.
     + destruct (perl_group c); [discriminate|exact Hplain].
   - destruct (next_rune (b :: t')) as [[c r0]| |] eqn:Hn; try discriminate. exact (fun _ => next_rune_fuel _ Hn).
 Qed.
+
+(* ---------------------------------------------------------------- no internal error from the text side *)
+Lemma next_rune_internal s : next_rune s <> Err ErrInternal.
+Proof. unfold next_rune. destruct (decode s) as [c0 w]. destruct ((c0 =? rune_error) && (w =? 1))%bool; discriminate. Qed.
+
+Lemma err_internal_of {A B} (r : res A) e : r = Err e -> r <> Err ErrInternal -> (Err e : res B) <> Err ErrInternal.
+Proof. intros -> H HH. injection HH as ->. exact (H eq_refl). Qed.
+
+Lemma hex_loop_internal t : forall r n, hex_loop t r n <> Err ErrInternal.
+Proof.
+  induction t as [|b t' IH]; intros r n; cbn [hex_loop]; [discriminate|].
+  destruct (128 <=? b). { destruct (next_rune (b :: t')) as [[? ?]| |] eqn:Hn; try discriminate. exact (err_internal_of _ _ Hn (next_rune_internal _)). }
+  destruct (b =? 125). { destruct (n =? 0); discriminate. }
+  destruct (unhex b <? 0); [discriminate|]. destruct (max_rune <? r * 16 + unhex b); [discriminate|]. apply IH.
+Qed.
+
+Ltac kill_internal :=
+  match goal with
+  | H : next_rune _ = Err ?e |- _ => exact (err_internal_of _ _ H (next_rune_internal _))
+  | H : hex_loop _ _ _ = Err ?e |- _ => exact (err_internal_of _ _ H (hex_loop_internal _ _ _))
+  end.
+
+Ltac split_matches_i :=
+  repeat match goal with
+         | |- context [match ?x with _ => _ end] =>
+           lazymatch x with
+           | context [match _ with _ => _ end] => fail
+           | _ => idtac
+           end;
+           match type of x with
+           | bool => destruct x
+           | _ => destruct x eqn:?
+           end; try discriminate; try kill_internal
+         end.
+
+Lemma parse_escape_internal s : parse_escape s <> Err ErrInternal.
+Proof. unfold parse_escape. split_matches_i. Qed.
+
+Lemma lex_unicode_class_internal fold r s : lex_unicode_class fold r s <> Err ErrInternal.
+Proof.
+  unfold lex_unicode_class.
+  destruct (next_rune (skipn 2 s)) as [[c0 t1]| |] eqn:Hn; try discriminate; [|kill_internal].
+  split_matches_i.
+Qed.
+
+Lemma class_char_internal s : class_char s <> Err ErrInternal.
+Proof. unfold class_char. destruct s as [|b t]; [discriminate|]. destruct (b =? 92); [apply parse_escape_internal|apply next_rune_internal]. Qed.
+
+Lemma class_loop_internal fuel : forall fold t first class, class_loop fuel fold t first class <> Err ErrInternal.
+Proof.
+  induction fuel as [|fuel IH]; intros fold t first class; [discriminate|]. cbn [class_loop].
+  set (range := match class_char t with Ok (lo, t1) => _ | Err e => Err e | OutOfFuel => OutOfFuel end).
+  assert (Hrange : range <> Err ErrInternal).
+  { subst range. destruct (class_char t) as [[lo t1]| |] eqn:Hc; try discriminate; [|exact (err_internal_of _ _ Hc (class_char_internal _))].
+    destruct t1 as [|d [|c1 t2]]; try apply IH.
+    destruct (negb (d =? 45) || (c1 =? 93))%bool; [apply IH|].
+    destruct (class_char (c1 :: t2)) as [[hi t3]| |] eqn:Hc2; try discriminate; [|exact (err_internal_of _ _ Hc2 (class_char_internal _))].
+    destruct (hi <? lo); [discriminate|]. apply IH. }
+  set (escapes := match t with b :: c0 :: t2 => _ | _ => range end).
+  assert (Hesc : escapes <> Err ErrInternal).
+  { subst escapes. destruct t as [|b [|c0 t2]]; try exact Hrange.
+    destruct (negb (b =? 92)); [exact Hrange|].
+    destruct ((c0 =? 112) || (c0 =? 80))%bool.
+    - destruct (lex_unicode_class fold class (b :: c0 :: t2)) as [[class' rest']| |] eqn:Hu; try discriminate; [apply IH|].
+      exact (err_internal_of _ _ Hu (lex_unicode_class_internal _ _ _)).
+    - destruct (perl_group c0); [apply IH|exact Hrange]. }
+  set (named := match t with b :: c0 :: ((_ :: _) as t2) => _ | _ => escapes end).
+  assert (Hnamed : named <> Err ErrInternal).
+  { subst named. destruct t as [|b [|c0 [|b2 t3]]]; try exact Hesc.
+    destruct ((b =? 91) && (c0 =? 58))%bool; [|exact Hesc].
+    destruct (index_pair 58 93 (b2 :: t3)) as [i|]; [|exact Hesc].
+    destruct (posix_group (firstn i (b2 :: t3))); [apply IH|discriminate]. }
+  destruct t as [|b t']; [exact Hrange|].
+  destruct ((b =? 93) && negb first)%bool; [discriminate|].
+  destruct (b =? 93); [exact Hrange|exact Hnamed].
+Qed.
+
+Lemma lex_class_internal fold s : lex_class fold s <> Err ErrInternal.
+Proof.
+  unfold lex_class.
+  destruct (match tl s with c0 :: t' => if c0 =? 94 then (true, t') else (false, tl s) | [] => (false, tl s) end) as [ng t0].
+  destruct (class_loop (S (length t0)) fold t0 true []) as [[class rest0]| |] eqn:Hl; try discriminate.
+  exact (err_internal_of _ _ Hl (class_loop_internal _ _ _ _ _)).
+Qed.
+
+Lemma flags_loop_internal t : forall f neg saw, flags_loop t f neg saw <> Err ErrInternal.
+Proof.
+  induction t as [|b t' IH]; intros f neg saw; cbn [flags_loop]; [discriminate|].
+  destruct (128 <=? b). { destruct (next_rune (b :: t')) as [[? ?]| |] eqn:Hn; try discriminate. kill_internal. }
+  repeat match goal with
+         | |- (if ?c then _ else _) <> _ => destruct c
+         end; try discriminate; apply IH.
+Qed.
+
+Lemma lex_perl_flags_internal f s : lex_perl_flags f s <> Err ErrInternal.
+Proof.
+  unfold lex_perl_flags. cbv zeta.
+  assert (Hnamed : forall start,
+    match index_byte 62 s with
+    | None => if check_utf8 0 s then Err ErrNamedCapture else Err ErrUTF8
+    | Some e =>
+      if negb (check_utf8 0 (firstn (e - start) (skipn start s))) then Err ErrUTF8
+      else if valid_capture_name (firstn (e - start) (skipn start s)) then Ok (TNamed (firstn (e - start) (skipn start s)), skipn (S e) s)
+      else Err ErrNamedCapture
+    end <> (Err ErrInternal : res (token * str))).
+  { intros start. destruct (index_byte 62 s); [|destruct (check_utf8 0 s); discriminate].
+    destruct (negb _); [discriminate|]. destruct (valid_capture_name _); discriminate. }
+  destruct s as [|b [|c [|c2 [|c3 rest0]]]]; try apply flags_loop_internal.
+  destruct ((c2 =? 80) && (c3 =? 60))%bool.
+  - destruct rest0; [apply flags_loop_internal|apply Hnamed].
+  - destruct (c2 =? 60); [apply Hnamed|apply flags_loop_internal].
+Qed.
+
+Theorem lex_internal f b t' : lex f b t' <> Err ErrInternal.
+Proof.
+  unfold lex. cbv zeta.
+  destruct (b =? 40). { destruct t' as [|c t'']; [discriminate|]. destruct (c =? 63); [apply lex_perl_flags_internal|discriminate]. }
+  repeat (match goal with |- (if ?c then _ else _) <> _ => destruct c eqn:? end; [try discriminate|]).
+  - destruct (lex_class _ _) as [[c rest0]| |] eqn:Hc; try discriminate. exact (err_internal_of _ _ Hc (lex_class_internal _ _)).
+  - match goal with |- (let '(_, _) := ?x in _) <> _ => destruct x end. discriminate.
+  - destruct (parse_repeat t') as [[[mn mx] after]|]; [|discriminate]. match goal with |- (if ?c then _ else _) <> _ => destruct c end; [discriminate|].
+    match goal with |- (let '(_, _) := ?x in _) <> _ => destruct x end. discriminate.
+  - assert (Hplain : match parse_escape (b :: t') with Ok (c, rest) => Ok (TEscLit c, rest) | Err e => Err e | OutOfFuel => OutOfFuel end
+                     <> (Err ErrInternal : res (token * str))).
+    { destruct (parse_escape (b :: t')) as [[c r0]| |] eqn:Hp; try discriminate. exact (err_internal_of _ _ Hp (parse_escape_internal _)). }
+    destruct t' as [|c t'']; [exact Hplain|].
+    repeat (match goal with |- (if ?c then _ else _) <> _ => destruct c eqn:? end; [try discriminate|]).
+    + destruct (index_pair 92 69 t''); match goal with |- (let '(_, _) := ?x in _) <> _ => destruct x end; discriminate.
+    + destruct (lex_unicode_class _ _ _) as [[r0 rest0]| |] eqn:Hu; try discriminate. exact (err_internal_of _ _ Hu (lex_unicode_class_internal _ _ _)).
+    + destruct (perl_group c); [discriminate|exact Hplain].
+  - destruct (next_rune (b :: t')) as [[c r0]| |] eqn:Hn; try discriminate. kill_internal.
+Qed.
